@@ -409,7 +409,8 @@ def post_real(p, wires, nets):
             if n[0] in '@r' or n[3] is None:    # producers the pass documents as not retargetable
                 continue
             r = rd.get(n[3], [])
-            if len(r) == 1 and r[0][0] == 'w' and wires.get(r[0][3], (0, 0))[1] == 2:
+            if len(r) == 1 and r[0][0] == 'w' and wires.get(r[0][3], (0, 0))[1] == 2 \
+                    and wires[r[0][3]][0] == wires.get(n[3], (None,))[0]:   # a truncating w net is not redundant
                 bad.append(('w-before-output', (n, r[0])))
                 break
     elif p == 6:
